@@ -244,8 +244,6 @@ def gen_score_specs(rng):
             if not [n for n in ns if not n.get("rest")] and rng.random() < 0.7:
                 ns.append(dict(id="nx", s=0, e=min(spec["total"], d), step="C", alter=None, oct=4, voice=1, staff=1))
             spec["notes"] = ns
-        if rng.random() < 0.1:
-            spec["measures"] = []
         specs.append(spec)
     return specs
 
@@ -941,12 +939,15 @@ def gen_inverse_case(rng):
             du = rng.randint(1, 3 * divs)
             rows.append([Fraction(on, divs), Fraction(du, divs), rng.randint(36, 90)])
     with_voice = rng.random() < 0.6
-    grace = with_voice and rng.random() < 0.3
-    if grace:
+    voices = [rng.randint(1, 3) for _ in rows] if with_voice else None
+    if with_voice and rng.random() < 0.3:
+        # a zero-duration (grace) row: at the onset and in the voice of a main note -- sanitize_part
+        # deliberately removes grace notes without a main note; arrays without 'voice' carry none (C17)
         i = rng.randrange(len(rows))
         rows.append([rows[i][0], Fraction(0), rng.randint(36, 90)])
+        voices.append(voices[i])
     case = {"kind": kind, "divs": divs, "rows": [[str(a), str(b), p] for a, b, p in rows],
-            "voice": [rng.randint(1, 3) for _ in rows] if with_voice else None,
+            "voice": voices,
             "estimate_time": rng.random() < 0.4, "f8": rng.random() < 0.3,
             "with_id": rng.random() < 0.3}
     return case
@@ -1079,14 +1080,24 @@ def shrink_inverse(case):
             c["voice"] = [case["voice"][i] for i in keep]
         return c
 
+    cls = failure_class(check_inverse(case)[0])
+
     def fails(keep):
         try:
-            return check_inverse(sub(keep))[0] is not None
+            return failure_class(check_inverse(sub(keep))[0]) == cls
         except Exception:
             return False
     if len(idx) < 2:
         return case
     return sub(core.ddmin(idx, fails))
+
+
+def failure_class(msg):
+    """Coarse class of an oracle message (numbers and quoted names removed): shrinking keeps the class."""
+    if msg is None:
+        return None
+    import re
+    return re.sub(r"[0-9]+|'[^']*'", "#", msg)[:60]
 
 
 # ---- corpus
